@@ -360,7 +360,8 @@ def witness(a, nb, k, nrm, tet0):
     """Witnesses for one target: a, nb exact coordinates, k hydrogens, nrm the unit normal observed from mean_plane
     (three neighbours).  Returns dict(ok, n, nz, ov, nrm, degenerate=<why>)."""
     one, zero = Fr(1), Fr(0)
-    w = {"ok": True, "n": one, "nz": one, "ov": [one, zero, zero], "nrm": nrm or [zero, zero, one], "why": None, "planar": False}
+    w = {"ok": True, "n": one, "nz": one, "ov": [one, zero, zero], "nrm": nrm or [zero, zero, one], "why": None, "planar": False,
+         "anti": False}
     if k <= 0:
         return w
     if len(nb) == 0:
@@ -390,6 +391,7 @@ def witness(a, nb, k, nrm, tet0):
         if abs(c - (-1 + tol)) < Fr(1, 10**10):
             return dict(w, ok=False, why="rotation at the antiparallel threshold")
         if c <= -1 + tol:
+            w["anti"] = True
             rv = least_axis(u)
             d = vdot(rv, u)
             ort = [r - x * d for r, x in zip(rv, u)]
@@ -767,7 +769,7 @@ def gen_spec(rng, planar=False):
     atoms = []
     for s, x in zip(syms, X):
         fc = rng.choice([0] * 8 + [1, -1]) if main(s) else 0
-        spin = rng.choice([0] * 10 + [1, 1, 2]) if main(s) else 0
+        spin = rng.choice([0] * 10 + [1, 1, 2, -1]) if main(s) else 0       # 2S; the property says |spin|, so a signed value is tried too
         # a drawing hint that fits the valence shell: neighbours + hydrogens <= 4
         hint = rng.choice([h for h in (0, 0, 1, 2, 3, 4) if h + len(nbr[len(atoms)]) <= 4]) if (hinted and rng.random() < 0.5) else None
         aty = "CoordinationCenter" if (s in ("Fe", "Pd", "Zn", "Cu") and rng.random() < 0.3) else rng.choice(["Regular", "Regular", "Aromatic", "Unknown"])
@@ -845,6 +847,7 @@ def process(ml, spec, idem=True):
     viol = judge(ml, spec, ob, tg, info)
     stats = {"targets": len(tg), "branches": [f"k={max(i['k'] or 0, 0)}:nn={len(i['nb'])}" + (":planar" if i["w"]["planar"] else "")
                                               + ("" if i["w"]["ok"] else ":degenerate") for i in info],
+             "anti": sum(1 for i in info if i["w"]["anti"]),
              "hinted": any(h is not None for h in ob["before"]["hints"]), "added": len(ob["after"]["atoms"]) - ob["n0"]}
     term = None if ob["raised"] else case_term(ml, spec, ob, tg, info)
     if idem and not ob["raised"] and not stats["hinted"] and spec.get("targets") is None:
@@ -872,7 +875,7 @@ def search_count_witness(ml, rep, tables):
     pos = [[1.5, 0.25, 0.5], [-0.75, 1.25, 0.5], [-0.5, -1.25, 0.75]]
     for sym in ["B", "C", "N", "O", "Si", "P", "S", "F", "Cl", "Fe", "H"]:
         for fc in (-1, 0, 1):
-            for spin in (0, 1, 2):
+            for spin in (0, 1, 2, -1, -2):
                 for pat in pats:
                     atoms = [[sym, fc, spin, None, "Regular", [0, 0, 0]]] + [["Cl", 0, 0, None, "Regular", p] for p in pos[:len(pat)]]
                     bonds = [[0, i + 1, bt, 1.5 if bt == "FractionalOrder" else 1.0] for i, bt in enumerate(pat)]
@@ -913,6 +916,8 @@ def run(ctx, rep):
         rep.count(kind.split(":")[0])
         for br in stats.get("branches", []):
             rep.count("branch:" + br)
+        if stats.get("anti"):
+            rep.count("rotation:antiparallel-branch", stats["anti"])
         if stats.get("hinted"):
             rep.count("hinted-molecule")
         if stats.get("idem"):
